@@ -478,16 +478,27 @@ Definition td_next (st : conn) : option conn :=
   | None => match c_reserved st with r :: _ => step st (Push r) | [] => None end
   end.
 
-(* how many labels of a schedule [run_lenient] had to skip because they were not enabled; a
-   [KaTimeout] derived from a client-side close is tolerated (an ordinary close).  The driver
-   reports a trace with skipped labels as a broken correspondence: such a trace is NOT a run. *)
+(* how many labels of a schedule [run_lenient] had to skip because they were not enabled.
+   Tolerated: a [KaTimeout] derived from a client-side close (an ordinary close), and the writer /
+   keepaliver steps of requests that the mock received AFTER it had written the bytes that broke
+   the connection (the client wrote them before it read those bytes; in the model they stay in the
+   channel and are failed by the drain with the router's error, like their handlers are in the
+   code).  The driver reports any other skipped label as a broken correspondence: such a trace
+   is NOT a run of the model. *)
+Definition tolerated_skip (st : conn) (l : label) : bool :=
+  match l with
+  | KaTimeout => true
+  | WriterTake _ | KaTick _ => negb (is_open st)
+  | _ => false
+  end.
+
 Fixpoint skipped_labels (st : conn) (ls : list label) : nat :=
   match ls with
   | [] => O
   | l :: r =>
       match step st l with
       | Some st' => skipped_labels st' r
-      | None => (match l with KaTimeout => O | _ => 1%nat end + skipped_labels st r)%nat
+      | None => ((if tolerated_skip st l then 0 else 1) + skipped_labels st r)%nat
       end
   end.
 
@@ -527,6 +538,22 @@ Fixpoint sent_for (s r : N) (armed : bool) (t : list tev) : list (list N) :=
         map f_body (filter (fun f => f_stream f =? s) (frames_of (List.length bs) bs)) ++ sent_for s r armed t'
       else sent_for s r armed t'
   | _ :: t' => sent_for s r armed t'
+  end.
+
+(* the same information for all requests of a connection in one pass: every complete frame the mock
+   wrote, paired with the request that held the frame's stream id at that moment ([holders] = the
+   last request frame seen per stream id) *)
+Fixpoint sent_table (holders : list (N * N)) (t : list tev) : list (N * list N) :=
+  match t with
+  | [] => []
+  | TIn s r _ :: t' => sent_table ((s, r) :: remove_stream s holders) t'
+  | TOut bs :: t' =>
+      flat_map (fun f => match find_stream (f_stream f) holders with
+                         | Some r => [(r, f_body f)]
+                         | None => []
+                         end) (frames_of (List.length bs) bs)
+      ++ sent_table holders t'
+  | _ :: t' => sent_table holders t'
   end.
 
 Fixpoint streams_of (r : N) (t : list tev) : list N :=
